@@ -66,6 +66,17 @@ def generate(rng, tier, stats):
                     o["status"]["containerStatuses"] = [K.container_status("main", restarts=rng.choice([0, 0, apm + 1]), waiting=rng.choice(WAIT),
                                                                            last_finished=rng.choice([None, -60]))]
                     o["status"]["phase"] = "Pending"
+                if rng.random() < 0.2:
+                    # several statuses: a harmless waiting reason first, the one that cannot start later (a sidecar, an init container)
+                    first = K.container_status("main", restarts=0, waiting=rng.choice(["PodInitializing", "ContainerCreating", "CrashLoopBackOff"]))
+                    later = K.container_status("side", restarts=0, waiting=rng.choice(["ImagePullBackOff", "CreateContainerConfigError", "ErrImagePull"]))
+                    if rng.random() < 0.5:
+                        o["status"]["containerStatuses"] = [first, later]
+                    else:
+                        o["status"]["containerStatuses"] = [first]
+                        o["status"]["initContainerStatuses"] = [K.container_status("init", restarts=0, waiting="ImagePullBackOff")]
+                    o["status"]["phase"] = "Pending"
+                    wprop.bump(stats, "cannot-start status behind a harmless waiting one", "yes")
                 # the triggers read regular, init and ephemeral container statuses alike (kubectl debug adds the latter)
                 r2 = rng.random()
                 if r2 < 0.25:
